@@ -1,3 +1,75 @@
-//! C03 — not yet built
-use crate::ctx::Ctx;
-pub fn run(c: &mut Ctx) { c.notes.push("C03: not implemented".into()); }
+//! C03 — saved files are valid PDF for a strict third-party reader.
+use crate::codec::*;
+use crate::ctx::{guard, Ctx};
+use crate::gen::*;
+use crate::props::c01::{doc_request, norm, norm_dict, same};
+use crate::strict::strict_load;
+use lopdf::xref::XrefType;
+use lopdf::{Document, Object};
+use serde_json::json;
+
+const BOOKKEEPING: &[&[u8]] = &[b"Size", b"Prev", b"Type", b"W", b"Index", b"Length", b"Filter", b"DecodeParms"];
+
+pub fn check_strict(c: &mut Ctx, before: &Document, bytes: &[u8], kind: &str, tag: &str) {
+    match guard(|| strict_load(bytes)) {
+        Ok(Ok(sd)) => {
+            if sd.version != before.version.as_bytes() { c.oracle_fail("strict:version", "version differs", json!({"file": hex(bytes)})); }
+            let skipped = |o: &Object| matches!(o.type_name(), Ok(b"ObjStm") | Ok(b"XRef") | Ok(b"Linearized"));
+            let want: Vec<_> = before.objects.iter().filter(|(_, o)| !skipped(o)).collect();
+            if want.len() != sd.objects.len() || want.iter().any(|(id, o)| !matches!(sd.objects.get(id), Some(b) if same(&norm(b), &norm(o)))) {
+                c.oracle_fail("strict:objects", "the strict reader does not recover exactly the saved objects",
+                    json!({"file": hex(bytes), "kind": kind, "want": want.len(), "got": sd.objects.len()}));
+            }
+            let strip = |d: &lopdf::Dictionary| { let mut n = norm_dict(d); for k in BOOKKEEPING { n.remove(k); } n };
+            if strip(&before.trailer) != strip(&sd.trailer) { c.oracle_fail("strict:trailer", "trailer differs", json!({"file": hex(bytes)})); }
+            c.count(&format!("{}.strict_ok", tag));
+        }
+        Ok(Err(rule)) => c.oracle_fail(&format!("strict-reject:{}", rule.split(' ').take(4).collect::<Vec<_>>().join("-")), &format!("strict reader rejects the saved file: {}", rule), json!({"file": hex(bytes), "kind": kind})),
+        Err((site, msg)) => c.oracle_fail(&format!("harness-panic@{}", site), &msg, json!({"file": hex(bytes)})),
+    }
+}
+
+pub fn run(c: &mut Ctx) {
+    c.rule = "documents as in C01 (all object kinds, sparse ids, generations, streams, any version/binary mark) x table|stream xref, plain save; \
+each saved file goes through the strict structural reader (every byte accounted for) and through the `save` correspondence (model bytes = real bytes). \
+Non-trivial = document with >= 2 objects; distinct by request text.".into();
+    let n = c.n(400, 6000);
+    for i in 0..n {
+        let Some(mut r) = c.case("doc", i) else { continue };
+        let mut doc = gen_doc(&mut r);
+        let stream = r.chance(1, 2);
+        doc.reference_table.cross_reference_type = if stream { XrefType::CrossReferenceStream } else { XrefType::CrossReferenceTable };
+        let kind = if stream { "stream" } else { "table" };
+        let before = doc.clone();
+        let req = doc_request(kind, &doc);
+        if doc.objects.len() >= 2 { c.nontrivial(&req); }
+        let mut buf = Vec::new();
+        match guard(|| doc.save_to(&mut buf)) {
+            Ok(Ok(())) => {
+                c.corr(req, format!("ok {} {} {}", hex_tok(&buf), doc.max_id, show_obj(&Object::Dictionary(doc.trailer.clone()))));
+                c.count(if stream { "doc.xref_stream" } else { "doc.xref_table" });
+                check_strict(c, &before, &buf, kind, "doc");
+                // self-test of the oracle: a structural mutation of the file must not pass unnoticed
+                if i % 4 == 0 && buf.len() > 40 {
+                    let mut m = buf.clone();
+                    match r.below(4) {
+                        0 => { let k = r.usize(m.len()); m.remove(k); }
+                        1 => { let k = r.usize(m.len()); m.insert(k, b' '); }
+                        2 => { // change a digit of an xref offset / startxref
+                               let pos: Vec<usize> = (m.len().saturating_sub(200)..m.len()).filter(|&k| m[k].is_ascii_digit()).collect();
+                               if !pos.is_empty() { let k = *r.pick(&pos); m[k] = if m[k] == b'9' { b'8' } else { m[k] + 1 }; } }
+                        _ => { let k = r.usize(m.len()); m[k] = m[k].wrapping_add(1); }
+                    }
+                    let accepted_same = match strict_load(&m) { Ok(sd) => {
+                        let skipped = |o: &Object| matches!(o.type_name(), Ok(b"ObjStm") | Ok(b"XRef") | Ok(b"Linearized"));
+                        let want: Vec<_> = before.objects.iter().filter(|(_, o)| !skipped(o)).collect();
+                        want.len() == sd.objects.len() && want.iter().all(|(id, o)| matches!(sd.objects.get(id), Some(b) if same(&norm(b), &norm(o)))) }, Err(_) => false };
+                    c.count(if accepted_same { "selftest.mutation_accepted_same_objects" } else { "selftest.mutation_detected" });
+                }
+                if i < 2 { c.sample(json!({"kind": kind, "objects": before.objects.len(), "file": String::from_utf8_lossy(&buf).chars().take(300).collect::<String>()})); }
+            }
+            Ok(Err(_)) => { c.corr(req, "err".into()); c.count("doc.save_error"); }
+            Err((site, msg)) => c.oracle_fail(&format!("panic@{}", site), &msg, json!({"kind": kind})),
+        }
+    }
+}
